@@ -29,7 +29,7 @@ SPEC = {
         {"name": "pk_coerce", "run": "^TestPKCoerce$", "quick": B(4000, 1), "thorough": B(200000, 1, 3000)},
         {"name": "pk_strmatch", "run": "^TestPKStrMatch$", "quick": B(4000, 1), "thorough": B(200000, 1, 3000)},
         {"name": "sk_minmax", "run": "^TestSKMinMax$", "quick": B(6000, 1), "thorough": B(300000, 1, 3000)},
-        {"name": "sk_bloom", "run": "^TestSKBloom$", "quick": B(1200, 2), "thorough": B(40000, 2, 3000)},
+        {"name": "sk_bloom", "run": "^TestSKBloom$", "quick": B(1200, 2), "thorough": B(60000, 2, 3000)},
     ],
 }
 
